@@ -907,6 +907,14 @@ func (e *env) call(n *ast.CallExpr, hint types.Type) Val {
 			e.fail("typeis: unknown type")
 		}
 		return boolVal(eq(a.S[0], fmt.Sprint(u.eng.typeID(t))))
+	case "implements":
+		// implements(ifaceValue, I): non-nil and the dynamic type implements interface I
+		a := e.ev(n.Args[0], nil)
+		t := e.resolveType(n.Args[1])
+		if t == nil {
+			e.fail("implements: unknown type")
+		}
+		return boolVal(and(not(eq(a.S[0], "0")), e.st.implTerm(a.S[0], t)))
 	case "unbox":
 		// unbox(ifaceValue, T)
 		a := e.ev(n.Args[0], nil)
